@@ -5,7 +5,7 @@ V=$(cd "$(dirname "$0")/.." && pwd)
 n=$1; shift
 (cd $V/harness && go build -o $V/.work/harness-t .) || exit 1
 for seed in "$@"; do
-for p in C01 C02 C03 C03D20 C04 C05 C06 C07 C08 C09 C10 C11 C12 C13 C14 C15 C17 C18 C19 L03 L04 L05 L06 L07 L08 L09 L14 L15 H09 G01 G02 G03 G04 G05 G06 G07 G08 G09 G10 G11 G12 G13 G14 G15 G18 G19 S11 B02; do
+for p in C01 C02 C03 C03D20 C04 C05 C06 C07 C08 C09 C10 C11 C12 C13 C14 C15 C17 C18 C19 L03 L04 L05 L06 L07 L08 L09 L14 L15 H09 G01 G02 G03 G04 G05 G06 G07 G08 G09 G10 G11 G12 G13 G14 G15 G18 G19 S11 B02 Z03 Z05 Z06 Z07 Z08; do
  ( d=$V/.work/ds_$p; mkdir -p $d; cd $d; $V/.work/harness-t -mode gen -prop $p -seed $seed -n $n -out . >/dev/null 2>&1 || echo "$p seed $seed HARNESS-FAIL"
    $V/lean/.lake/build/bin/driver < lean.in > lean.out
    sed -E 's/(res2?=err):[^ ]*/\1/g' go.out > go.n; sed -E 's/(res2?=err):[^ ]*/\1/g' lean.out > lean.n
